@@ -198,6 +198,10 @@ func (c *rebComp) Gen(rng *rand.Rand, idx int, tier string, targeted bool) hlib.
 			}
 			op = append(op, k, ready, rate(k))
 		}
+		if rng.Intn(6) == 0 { // the backend takes a while: a fraction or a multiple of the back-off
+			d := eff/hlib.Pick(rng, 8, 3, 2) + rng.Int63n(eff/2+1)
+			op = append([]int64{5, d}, op[1:]...)
+		}
 		h.Ops = append(h.Ops, op)
 	}
 	phases := 3 + rng.Intn(4)
@@ -319,6 +323,7 @@ func (c *rebComp) Run(h *hlib.History) ([]hlib.Mon, bool) {
 		case len(op) == 4 && (op[0] == 0 || op[0] == 4) && op[1] >= 0:
 		case len(op) == 2 && op[0] == 1 && op[1] >= 0:
 		case len(op) >= 1 && op[0] == 2 && (len(op)-1)%3 == 0:
+		case len(op) >= 2 && op[0] == 5 && (len(op)-2)%3 == 0 && op[1] >= 0 && op[1] < 1<<50:
 		case len(op) == 2 && op[0] == 3 && op[1] >= 0:
 		default:
 			return nil, false
@@ -331,7 +336,13 @@ func (c *rebComp) Run(h *hlib.History) ([]hlib.Mon, bool) {
 	}
 	defer clock.Freeze(time.Date(2024, 1, 1, 0, 0, 0, 0, time.UTC)).Unfreeze()
 
-	next := http.HandlerFunc(func(w http.ResponseWriter, _ *http.Request) { w.WriteHeader(http.StatusOK) })
+	slow := int64(0) // the backend takes this long to answer the request under way (the frozen clock moves inside the handler)
+	next := http.HandlerFunc(func(w http.ResponseWriter, _ *http.Request) {
+		if slow > 0 {
+			clock.Advance(time.Duration(slow))
+		}
+		w.WriteHeader(http.StatusOK)
+	})
 	rr, err := roundrobin.New(next)
 	if err != nil {
 		return nil, false
@@ -383,6 +394,12 @@ func (c *rebComp) Run(h *hlib.History) ([]hlib.Mon, bool) {
 	_, prevW, _ := observe(0)
 
 	for step, op := range h.Ops {
+		slow = 0
+		if op[0] == 5 { // a request as op 2, answered after op[1] ns: the weights are adjusted at the later instant
+			slow = op[1]
+			now += slow
+			op = append([]int64{2}, op[2:]...)
+		}
 		switch op[0] {
 		case 0, 4: // Upsert; 4: while the meter factory fails
 			k, has, w := op[1], op[2] != 0, op[3]
@@ -630,8 +647,12 @@ func (c *rebComp) Describe(h *hlib.History) interface{} {
 			}
 		case 1:
 			s = fmt.Sprintf("Remove(%d)", op[1])
-		case 2:
-			s = "Request{"
+		case 2, 5:
+			if op[0] == 5 {
+				s = fmt.Sprintf("(answered after %v) ", time.Duration(op[1]))
+				op = append([]int64{2}, op[2:]...)
+			}
+			s += "Request{"
 			for j := 1; j+2 < len(op); j += 3 {
 				s += fmt.Sprintf(" %d:ready=%d,rating=%d/1024", op[j], op[j+1], op[j+2])
 			}
